@@ -238,7 +238,8 @@ PROPS = {
             {"name": "drcp", "mode": "drcp", "quick": 400, "thorough": 10000, "args": []},
         ],
         "relevant": lambda kind, rec, case: True,
-        "level_text": "Proof: Model/Drcp.lean models the writer (render) and the reader grammar (parse) at token level with the Rust types' ranges (NonZero i32 literals, u64 ids, u32 tags); parse_render: every well-formed step reads back unchanged (empty premise lists, empty nogoods with/without hints, empty hint lists, tag, label, extreme codes), parse_render_seq for sequences; IntAtomic.not_not / not64_not64 / BoolAtomic.not_not. Tie to code: random step sequences through the real ProofWriter must be byte-identical to the model's rendering (exact), the real ProofReader must return the written steps, on malformed token soups the real reader's accept/reject verdict and result must equal the model's; LiteralDefinitions write -> parse -> equal and deterministic; !!a == a through the real Not impl.",
+        "lean_modules": ["Pumpkin.Model.Lits"],
+        "level_text": "Model/Lits.lean models the literal definition file at byte level (LiteralDefinitions::write and the nom grammar of parse: atomic_definition, variable, atomic_list, int_atomic before bool_atomic, comparator, identifier, i64 with sign, trailing input ignored, blank lines skipped); lits_line_read_back / lits_file_read_back: every file the writer can produce for names [A-Za-z_][A-Za-z0-9_]* is read back unchanged, for all codes, comparisons, i64 values; tied exactly: written files and perturbed / hand-made variants must give the same accept/reject verdict and the same definitions as the real parser. Proof: Model/Drcp.lean models the writer (render) and the reader grammar (parse) at token level with the Rust types' ranges (NonZero i32 literals, u64 ids, u32 tags); parse_render: every well-formed step reads back unchanged (empty premise lists, empty nogoods with/without hints, empty hint lists, tag, label, extreme codes), parse_render_seq for sequences; IntAtomic.not_not / not64_not64 / BoolAtomic.not_not. Tie to code: random step sequences through the real ProofWriter must be byte-identical to the model's rendering (exact), the real ProofReader must return the written steps, on malformed token soups the real reader's accept/reject verdict and result must equal the model's; LiteralDefinitions write -> parse -> equal and deterministic; !!a == a through the real Not impl.",
         "level_note": LEVEL_NOTE_COMMON + "Lexing (characters <-> tokens, Rust integer Display / nom integer parsers) is glue checked by the exact correspondence, not proved.",
     },
     "C14": {
